@@ -477,10 +477,20 @@ class CWorldMonitor:
                 if "early" in k:
                     # the peer answered the new_stream frame at once: headers a=1 and one complete message
                     self.rpcs[dsid].update(hdr_seen=True, hdr="a=1", complete=1)
+            if dop == "invoke" and dsid == 0 and not self.finished:
+                v.append(("C04", "new-fails-on-open-channel", f"Invoke failed to create its stream on an open channel: {res}"))
             if dop == "new" and res != "ok" and not self.finished:
                 v.append(("C04", "new-fails-on-open-channel", f"NewStream failed on an open channel: {res}"))
             if dop == "new" and res == "ok" and self.finished:
                 v.append(("C04", "new-succeeds-on-closed-channel", "NewStream succeeded after the channel finished"))
+        if op.startswith("c.invoke"):
+            # the unary call path: the library itself plays the caller (send, close-send, receive, receive again)
+            for fsid, f in o["F"]:
+                if f.startswith("new:"):
+                    self.rpcs[fsid] = {"shape": "U", "msgs": 0, "terminal": None, "close": None, "hdr": None, "hdr_seen": False,
+                                       "complete": 0, "cur": None, "cancelled": False, "finished": False, "invoke": True,
+                                       "deadline": "timeout" in k, "sent_bytes": 0, "credit": 0, "flushed": False}
+                    self.table.add(fsid)
         if fin:
             self.finished = True
             for r in self.rpcs.values():
@@ -556,6 +566,20 @@ class CWorldMonitor:
                                 v.append(("C01", "incomplete-on-ok", f"stream {dsid}: OK end after {r['msgs']} of {r['complete_at_close']} responses"))
                     elif res != r["terminal"]:
                         v.append(("C02", "terminal-changed", f"stream {dsid}: terminal result {r['terminal']} then {res}"))
+            if dop == "invoke" and res.startswith("msg:"):
+                # Invoke returned success: the peer must have closed the RPC OK after exactly one response message
+                if not r.get("by_close"):
+                    v.append(("C16", "invoke-ok-before-close", f"stream {dsid}: Invoke returned success before the peer closed the RPC"))
+                elif r["close"][0] != 0:
+                    v.append(("C02", "ok-result-for-failed-rpc", f"stream {dsid}: Invoke returned success although the peer closed the RPC with code {r['close'][0]}"))
+                elif r["complete_at_close"] != 1:
+                    v.append(("C16", "unary-success-without-exactly-one-response", f"stream {dsid}: Invoke returned success although the peer sent "
+                                                                                  f"{r['complete_at_close']} response message(s) before its OK close"))
+            if dop == "invoke" and not res.startswith("msg:") and r.get("by_close") and r["close"][0] == 0 and r.get("complete_at_close") == 1 \
+                    and not r["flushed"] and not r["deadline"] and not r["cancelled"]:
+                v.append(("C02", "error-result-for-successful-rpc", f"stream {dsid}: one response and an OK close, but Invoke returned {res}"))
+            if dop == "invoke" and res == "" :
+                pass
             if dop == "trailer" and r.get("by_close") and r["terminal"] is not None and not r["flushed"]:
                 want = r["close"][1]
                 if res != "md{" + want + "}":
@@ -970,6 +994,45 @@ class MetaMonitor:
             if f.get(name) != "1":
                 key = f"{what.replace(' ', '-')}-not-exact" + ("" if valid else "-non-utf8")
                 v.append(("C02", key, f"{what} not delivered exactly on `{op[:140]}`: {line}"))
+        return v
+
+
+class RegistryMonitor:
+    """C12 on the public API: WaitForReady reflects whether the set of open tunnels (of the key) is non-empty."""
+
+    def __init__(self):
+        self.key_of = {}
+        self.waiters = {}
+
+    def feed(self, op, line):
+        v = []
+        k = kvs(op)
+        name = op.split()[0]
+        if name == "r.init":
+            self.key_of, self.waiters = {}, {}
+        if name in ("r.open", "r.doa"):
+            self.key_of[int(k["t"])] = k["key"]
+        if name == "r.wait":
+            self.waiters[int(k["w"])] = k["key"]
+        if name == "r.closewait":
+            self.waiters[int(k["w"])] = "*"
+        m = re.search(r"all=\[(.*?)\] ready=(\d) cb=\[.*?\] waiters=\[(.*?)\]", line)
+        if not m:
+            return v
+        live = [int(x) for x in m.group(1).split(",") if x]
+        if (m.group(2) == "1") != bool(live):
+            v.append(("C12", "ready-wrong", f"Ready() = {m.group(2)} with open tunnels {live}"))
+        for w in m.group(3).split():
+            wid, _, state = w.partition(":")
+            key = self.waiters.get(int(wid))
+            if key is None:
+                continue
+            avail = [t for t in live if key == "*" or self.key_of.get(t) == key]
+            if state == "parked" and avail:
+                v.append(("C12", "waiter-not-released", f"WaitForReady caller {wid} (key {key}) is still blocked although tunnel(s) {avail} "
+                                                        f"are open for it after `{op}`"))
+            if state == "err":
+                v.append(("C12", "waiter-failed", f"WaitForReady caller {wid} failed although its deadline is far away"))
         return v
 
 
